@@ -139,8 +139,8 @@ func walkErr(err error, f func(error)) {
 	}
 }
 
-// errClass maps an error to a class: the sorted set of violation reasons, else a coarse category.
-func errClass(err error) string {
+// renderErrClass maps an error to a class: the sorted set of violation reasons, else a coarse category.
+func renderErrClass(err error) string {
 	if err == nil {
 		return ""
 	}
@@ -215,7 +215,7 @@ func (sc *renderScenario) env() (manifests.PackageEnvironment, error) {
 // renderOnce follows Deploy step by step and additionally reports the objects per file the
 // collection stage started from.
 func renderOnce(ctx context.Context, sc *renderScenario) (g renderGroup) {
-	fail := func(err error) renderGroup { return renderGroup{Err: errClass(err)} }
+	fail := func(err error) renderGroup { return renderGroup{Err: renderErrClass(err)} }
 	apiPkg := sc.apiPackage()
 	env, err := sc.env()
 	if err != nil {
@@ -268,11 +268,11 @@ func renderOnce(ctx context.Context, sc *renderScenario) (g renderGroup) {
 	// filter them once more (read-only on pkg.Files) to see objects per path and the filter verdicts.
 	all, err := packages.RenderObjects(ctx, pkg, rctx, nil)
 	if err != nil {
-		return renderGroup{Err: "harness-reparse:" + errClass(err)}
+		return renderGroup{Err: "harness-reparse:" + renderErrClass(err)}
 	}
 	_, filtered, err := packages.VerifRenderObjectsWithFilterInfo(ctx, pkg, rctx, nil)
 	if err != nil {
-		return renderGroup{Err: "harness-refilter:" + errClass(err)}
+		return renderGroup{Err: "harness-refilter:" + renderErrClass(err)}
 	}
 	paths := make([]string, 0, len(all))
 	for p := range all {
